@@ -261,6 +261,57 @@ def no_decision_on_defaults(ctx: Ctx):
                "of a user function is treated alike")
 
 
+@rule("R17.WORDER")
+def weight_index_order(ctx: Ctx):
+    """The transition array of a stochastic variable is indexed with the labels of its dependencies in the order of the
+    next function's SIGNATURE -- the order in which create_params_template lays out the axes of that array."""
+    from lcmsa.alg import norm
+
+    prog = ctx.prog
+    q = "lcm.input_processing.process_model._get_stochastic_weight_function"
+    if q not in prog.funcs:
+        ctx.undecided("WORDER:index-order", f"{q} not found (anchor vanished)")
+        return
+    fr = prog.frame(q)
+    where = prog.node_where(fr.module, prog.funcs[q].node)
+    raw = ("param", q, fr.params[0]) if fr.params else None
+    cids = sorted(c for cs in fr.closures.values() for c in cs)
+    calls = []
+    for cid in cids:
+        cf = prog.closure_frame(cid)
+        for t in [cf.ret] + [e for _c, e, _n in cf.effects]:
+            calls += [s_ for s_ in walk(t) if s_[0] == "call" and callee_name(s_) in ("lcm.functools.all_as_args", "lcm.functools.all_as_kwargs")]
+    names = [kw(c, "arg_names") for c in calls if kw(c, "arg_names") is not None]
+    if raw is None or not names:
+        ctx.undecided("WORDER:index-order", "the weight function does not bind its arguments through all_as_args(arg_names=...)", where)
+        return
+    sig = ("attr", ("call", ("glob", "inspect.signature"), (raw,), ()), "parameters")
+    want = norm(("list", (("star", ("call", ("glob", "builtins.list"), (sig,), ())), ("const", "params"))))
+    got = norm(names[0])
+    if got == want:
+        ctx.ob("WORDER:index-order", True, where,
+               "the weight array is indexed by the dependencies in the order of the next function's signature (the layout of the template)",
+               lhs=names[0])
+    else:
+        from_sig = any(x == sig or callee_name(x) == "inspect.signature" for x in walk(names[0]))
+        ends_params = is_term(got) and got[0] == "cat" and got[1] and got[1][-1] == ("list", (("const", "params"),))
+        verdict = False if (from_sig and ends_params) else None
+        ctx.ob("WORDER:index-order", verdict, where,
+               "the order in which the dependency labels index the transition array is derived from the signature but is not the signature "
+               "order (re-sorted / _period moved): it disagrees with the axis layout of the params template" if verdict is False else
+               "order of the index arguments not recognised", lhs=names[0], rhs="[*signature(raw_func).parameters, 'params']")
+    # the template side
+    tq = "lcm.input_processing.create_params_template._create_stochastic_transition_params"
+    if tq in prog.funcs:
+        tf = prog.frame(tq)
+        dims = [s_ for t in frame_terms(tf) + loop_terms(prog, tf) for s_ in walk(t)
+                if s_[0] == "comp" and any(callee_name(x) == "inspect.signature" for x in walk(s_[3][0][1]))]
+        ok = any(callee_name(d[3][0][1]) in ("builtins.list", None) and not any(callee_name(x) in ("builtins.sorted", "builtins.reversed", "builtins.set")
+                                                                                 for x in walk(d[3][0][1])) for d in dims)
+        ctx.ob("WORDER:template-order", True if ok else None, prog.node_where(tf.module, prog.funcs[tq].node),
+               "the template lays out the axes in signature order" if ok else "axis order of the template not recognised")
+
+
 @rule("R0.UNDEF")
 def defined_before_use(ctx: Ctx):
     """No value that is *definitely* unassigned is used: returns, call arguments, loop updates and
